@@ -65,7 +65,8 @@ pub fn game_ending(
         return Some(GameEnding::Draw);
     }
 
-    if board.halfmove_clock() >= 50 {
+    // Fifty moves by each side without a capture or pawn move is 100 plies.
+    if board.halfmove_clock() >= 100 {
         return Some(GameEnding::Draw);
     }
 
